@@ -41,6 +41,7 @@ type request struct {
 	Procs     int    `json:"procs"`
 	Yield     uint64 `json:"yield"`
 	TimeoutMs int    `json:"timeout_ms"`
+	MaxLog    int    `json:"max_log"`
 }
 
 type response struct {
@@ -49,6 +50,7 @@ type response struct {
 	Error  *string                `json:"error"`
 	Logs   map[string][]interface{} `json:"logs"`
 	Ms     int64                  `json:"ms"`
+	Overflow bool                 `json:"overflow"`
 }
 
 func canon(o object.Object, depth int) interface{} {
@@ -79,10 +81,14 @@ func canon(o object.Object, depth int) interface{} {
 }
 
 type recorder struct {
-	mu    sync.Mutex
-	logs  map[string][]interface{}
-	seed  uint64
-	count uint64
+	mu       sync.Mutex
+	logs     map[string][]interface{}
+	seed     uint64
+	count    uint64
+	total    int
+	limit    int
+	overflow bool
+	cancel   context.CancelFunc
 }
 
 func mix(z uint64) uint64 {
@@ -104,6 +110,18 @@ func (r *recorder) maybeYield() {
 
 func (r *recorder) add(name string, v interface{}) {
 	r.mu.Lock()
+	if r.total >= r.limit {
+		// a runaway script (e.g. a receive loop that never sees nil): stop recording, stop the evaluation
+		if !r.overflow {
+			r.overflow = true
+			if r.cancel != nil {
+				r.cancel()
+			}
+		}
+		r.mu.Unlock()
+		return
+	}
+	r.total++
 	r.logs[name] = append(r.logs[name], v)
 	r.mu.Unlock()
 }
@@ -200,7 +218,10 @@ func (r *recorder) globals() map[string]any {
 
 func runOne(req request) (resp response) {
 	resp.ID = req.ID
-	rc := &recorder{logs: map[string][]interface{}{}, seed: req.Yield}
+	rc := &recorder{logs: map[string][]interface{}{}, seed: req.Yield, limit: req.MaxLog}
+	if rc.limit <= 0 {
+		rc.limit = 200000
+	}
 	if req.Procs > 0 {
 		runtime.GOMAXPROCS(req.Procs)
 	}
@@ -210,29 +231,57 @@ func runOne(req request) (resp response) {
 	}
 	ctx, cancel := context.WithTimeout(context.Background(), to)
 	defer cancel()
+	rc.cancel = cancel
 	t0 := time.Now()
-	defer func() {
-		if r := recover(); r != nil {
-			m := fmt.Sprintf("GOPANIC %v", r)
-			resp.Error = &m
-		}
-		resp.Ms = time.Since(t0).Milliseconds()
-		rc.mu.Lock()
-		resp.Logs = map[string][]interface{}{}
-		for k, v := range rc.logs {
-			resp.Logs[k] = append([]interface{}{}, v...)
-		}
-		rc.mu.Unlock()
-	}()
-	res, err := risor.Eval(ctx, req.Src, risor.WithConcurrency(), risor.WithGlobals(rc.globals()))
-	if err != nil {
-		m := err.Error()
-		resp.Error = &m
-		return
+	type outcome struct {
+		res object.Object
+		err error
+		pan interface{}
 	}
-	resp.Result = canon(res, 0)
+	done := make(chan outcome, 1)
+	go func() {
+		var o outcome
+		defer func() {
+			if r := recover(); r != nil {
+				o.pan = r
+			}
+			done <- o
+		}()
+		o.res, o.err = risor.Eval(ctx, req.Src, risor.WithConcurrency(), risor.WithGlobals(rc.globals()))
+	}()
+	hang := false
+	select {
+	case o := <-done:
+		if o.pan != nil {
+			m := fmt.Sprintf("GOPANIC %v", o.pan)
+			resp.Error = &m
+		} else if o.err != nil {
+			m := o.err.Error()
+			resp.Error = &m
+		} else {
+			resp.Result = canon(o.res, 0)
+		}
+	case <-time.After(to + 3*time.Second):
+		// the evaluation ignores its cancelled context: report and let main exit (the goroutine cannot be killed)
+		m := "HANG: evaluation did not return 3s after its deadline"
+		resp.Error = &m
+		hang = true
+	}
+	resp.Ms = time.Since(t0).Milliseconds()
+	rc.mu.Lock()
+	resp.Logs = map[string][]interface{}{}
+	for k, v := range rc.logs {
+		resp.Logs[k] = append([]interface{}{}, v...)
+	}
+	resp.Overflow = rc.overflow
+	rc.mu.Unlock()
+	if hang {
+		hung = true
+	}
 	return
 }
+
+var hung bool
 
 func main() {
 	w := bufio.NewWriterSize(os.Stdout, 1<<20)
@@ -253,5 +302,8 @@ func main() {
 		}
 		enc.Encode(runOne(req))
 		w.Flush()
+		if hung {
+			os.Exit(3)
+		}
 	}
 }
